@@ -25,7 +25,7 @@ var profC01 = ConcProfile{
 	Profile: Profile{
 		MaxBars: 9, MinBars: 1, Refresh: []string{"autort", "autort", "autoinj", "manual", "none"}, QLens: []int{-1, -1, 0, 1, 2, -2, -3, -4},
 		Pop: 25, Queue: 15, Prio: true, Ext: 10, Text: 2, Rm: 25, NoPop: 15, AbortW: 2,
-		SyncDecors: 2, PlainDecors: 1, Wraps: true, Fillers: []string{"bar", "tag", "nop"}, Notifier: 30, SmallWidth: 12, Faults: 8,
+		SyncDecors: 2, PlainDecors: 1, Wraps: true, Fillers: []string{"bar", "tag", "nop"}, Notifier: 30, SmallWidth: 12, Faults: 8, UserWG: 20,
 	},
 	MaxBlocks: 4, MaxBlockOps: 10, Pars: 2, CancelIn: 10, PerturbMax: 3, HoldPct: 40, SyncPct: 60,
 }
@@ -131,6 +131,13 @@ func runC01(ci interface{}) Result {
 	for _, g := range tr.Final {
 		if g.Running {
 			r.Err, r.Kind = fmt.Errorf("bar %d is still running after Wait returned", g.Bar), "running"
+			return r
+		}
+	}
+	if sc.Cfg.UserWG {
+		r.Classes = append(r.Classes, "user-waitgroup")
+		if tr.UserWGDoneSeq == 0 || tr.WaitSeq < tr.UserWGDoneSeq {
+			r.Err, r.Kind = fmt.Errorf("Wait returned (event %d) before the wait group given with WithWaitGroup was released (event %d)", tr.WaitSeq, tr.UserWGDoneSeq), "user-waitgroup"
 			return r
 		}
 	}
